@@ -88,8 +88,8 @@ CHECKS.update({
 
 CHECKS.update({
     "C07": dict(
-        text="All of fileset.c is executed symbolically against contract models of my_fileset (setfile generations: any subset of three names per change), the monotonic clock (any non-decreasing readings, equal readings included), readers, mergers and iterators, over histories of <= 14 operations on two handles sharing one fileset (open/close iterators, reload, reload_now, setfile change, time passes, dup with other filters/interval, destroy in either order): a new iterator reads exactly the files of the most recent reload restricted by the handle's filter and never from an unloaded reader; no load/unload while an iterator is open; due reloads happen at the next source operation. Found F3 (fixed).",
-        note="libmy/my_fileset.c (stat/fopen/getline/qsort/bsearch) is modelled by contract, not executed; histories are enumerated shapes, clock readings and setfile contents are solver variables.",
+        text="All of fileset.c is executed symbolically against contract models of my_fileset (setfile generations: any subset of three names per change), the monotonic clock (any non-decreasing readings, equal readings included), readers, mergers and iterators, over histories of <= 14 operations on two handles sharing one fileset (open/close iterators, reload, reload_now, setfile change, time passes, dup with other filters/interval, destroy in either order): a new iterator reads exactly the files of the most recent reload restricted by the handle's filter and never from an unloaded reader; no load/unload while an iterator is open; due reloads happen at the next source operation. Found F3 (fixed). The real libmy/my_fileset.c is executed in separate queries over enumerated setfile generations (<= 3 generations of <= 4 lines over three names incl. repeated names, missing and reappearing files; inode/mtime change symbolic): the loaded set is exactly the named existing files, kept entries are not reloaded, every loaded object is destroyed exactly once (F12, fixed).",
+        note="fileset.c and my_fileset.c meet at my_fileset's contract, they are not executed in one query; histories and setfile line lists are enumerated shapes, clock readings, fileset.c's setfile generations and the setfile's inode/mtime changes are solver variables.",
         ref="DESIGN.md 4 C07"),
 })
 
